@@ -27,7 +27,6 @@ impl CommentMasker {
                     || text.contains("spellcheck: ignore")
                     || text.contains("harper:ignore")
                     || text.contains("harper: ignore")
-                    || text.starts_with("#!")
             }),
         )
     }
@@ -50,8 +49,16 @@ impl Masker for CommentMasker {
             .create_mask(source)
             .iter_allowed(source)
             .map(|(span, chars)| (span, chars.iter().collect::<String>()))
-            .filter(|(_, text)| !(self.ignore_condition)(text))
-            .map(|(span, _)| span)
+            .filter_map(|(span, text)| {
+                // A shebang only hides its own line, not the comment lines merged with it.
+                if text.starts_with("#!") {
+                    let line_len = text.chars().position(|c| c == '\n')? + 1;
+                    let rest: String = text.chars().skip(line_len).collect();
+                    let rest_span = harper_core::Span::new(span.start + line_len, span.end);
+                    return (!(self.ignore_condition)(&rest)).then_some(rest_span);
+                }
+                (!(self.ignore_condition)(&text)).then_some(span)
+            })
             .collect()
     }
 }
